@@ -56,6 +56,9 @@ func (d *intDecoder) parseInt(b []byte) (int64, error) {
 	if maxDigit == 0 {
 		return 0, fmt.Errorf("invalid number: no digits")
 	}
+	if maxDigit > 1 && b[0] == '0' {
+		return 0, fmt.Errorf("invalid number: leading zero")
+	}
 	if maxDigit > pow10i64Len {
 		return 0, fmt.Errorf("invalid length of number")
 	}
